@@ -2,9 +2,9 @@
 """Collects /verif/seeded/<id>/{meta,verify,detection}.json into seeded/README.md and normalises meta.json."""
 import json, glob, os
 rows = []
-for d in sorted(glob.glob("/verif/seeded/C??_?")) + sorted(glob.glob("/verif/seeded/round2/C??_?")) + sorted(glob.glob("/verif/seeded/round3/C??_?")):
+for d in sorted(glob.glob("/verif/seeded/C??_?")) + sorted(glob.glob("/verif/seeded/round2/C??_?")) + sorted(glob.glob("/verif/seeded/round3/C??_?")) + sorted(glob.glob("/verif/seeded/round4/C??_?")):
     mid = os.path.basename(d)
-    shown = ("R2:" if "/round2/" in d else "R3:" if "/round3/" in d else "") + mid
+    shown = ("R2:" if "/round2/" in d else "R3:" if "/round3/" in d else "R4:" if "/round4/" in d else "") + mid
     meta = json.load(open(d + "/meta.json"))
     ver = json.load(open(d + "/verify.json")) if os.path.exists(d + "/verify.json") else {}
     det = json.load(open(d + "/detection.json")) if os.path.exists(d + "/detection.json") else {}
@@ -27,7 +27,7 @@ for d in sorted(glob.glob("/verif/seeded/C??_?")) + sorted(glob.glob("/verif/see
                  "yes" if meta["confirmed_by_verif"]["demo_fails_with_change"] and meta["confirmed_by_verif"]["demo_passes_without_change"] else "see meta",
                  ", ".join(det.get("detected_by", [])) or "**not caught**"))
 with open("/verif/seeded/README.md", "w") as f:
-    f.write("# Seeded changes\n\nProduced by fresh sub-agents that saw only the property text and a scratch worktree (three rounds; `round2/` and `round3/` were asked for other files and mechanisms than the earlier rounds and were made against the tree as repaired at that time, DESIGN §8.1). Each directory holds `patch.diff` (apply with `git -C /repo apply`), `demo.rs` (integration test that fails with the change and passes without it), `meta.json` (the agent's description, my confirmation, and the checks' verdicts).\n\n")
+    f.write("# Seeded changes\n\nProduced by fresh sub-agents that saw only the property text and a scratch worktree (four rounds; `round2/`, `round3/` and `round4/` were asked for other files and mechanisms than the earlier rounds and were made against the tree as repaired at that time, DESIGN §8.1). Each directory holds `patch.diff` (apply with `git -C /repo apply`), `demo.rs` (integration test that fails with the change and passes without it), `meta.json` (the agent's description, my confirmation, and the checks' verdicts).\n\n")
     f.write("| id | file(s) changed | needs, in order to manifest | demo confirmed | caught by (quick tier, seeds 1–2) |\n|---|---|---|---|---|\n")
     for r in rows:
         f.write("| %s | %s | %s | %s | %s |\n" % r)
